@@ -8,11 +8,12 @@ import itertools
 
 TITLE = 'ICAO 1-3-5 rule for every okta sequence'
 EXPLORER = 'E1'
-CLAUSES = ['C17.fold', 'C17.prefix', 'C17.length', 'C17.third_flag', 'C17.fourth_refused']
+CLAUSES = ['C17.fold', 'C17.prefix', 'C17.length', 'C17.third_flag', 'C17.fourth_refused', 'C17.containers', 'C17.result_owned_by_caller']
 RULE = ('every sequence over the okta alphabet up to the length bound, enumerated depth-first from '
         'each fixed prefix (one case = one prefix subtree); an execution is one call of the real '
         'significant_cloud(); distinct_nontrivial counts distinct flag patterns returned')
-ASSUMPTIONS = ['oktas are python ints 0..8 in a list, as produced by DataFrame.to_list() in metarize',
+ASSUMPTIONS = ['oktas are python ints 0..8 in a list, as produced by DataFrame.to_list() in metarize; for sequences of length <= 4 also tuples, '
+               'numpy arrays (int64, int8, uint8, uint16, float64) and pandas Series with a non-default index',
                'longer sequences than the bound are not decided']
 
 FULL = list(range(9))
@@ -30,6 +31,9 @@ def cases(tier):
     out = [{'alphabet': 'full', 'prefix': [], 'upto': plen - 1}]   # the short sequences themselves
     for p in itertools.product(FULL, repeat=plen):
         out.append({'alphabet': 'full', 'prefix': list(p), 'upto': full_len})
+    # other containers of the same values, and what happens after a caller edits a returned list in place
+    for first in FULL:
+        out.append({'alphabet': 'full', 'containers': first, 'upto': 4 if tier == 'quick' else 5})
     out.append({'alphabet': 'boundary', 'prefix': [], 'upto': plen - 1})
     for p in itertools.product(BOUNDARY, repeat=plen):
         out.append({'alphabet': 'boundary', 'prefix': list(p), 'upto': bnd_len})
@@ -84,7 +88,46 @@ def run_case(case):
                                       # sequence (keeps any call history a stateful defect may need)
                                       'sub': {**{k: v for k, v in case.items() if k != 'stop_at'}, 'stop_at': list(seq)}})
 
-    if 'single' in case:                     # replay of one sequence (and its parent)
+    if 'containers' in case:
+        import numpy as np
+        import pandas as pd
+        seqs = [[case['containers']]]
+        for n in range(2, case['upto'] + 1):
+            seqs += [[case['containers']] + list(t) for t in itertools.product(FULL, repeat=n - 1)]
+        if 'stop_at' in case:
+            seqs = seqs[:seqs.index(case['stop_at']) + 1]
+        makers = [('tuple', tuple), ('int64', lambda s: np.array(s, dtype='int64')), ('int8', lambda s: np.array(s, dtype='int8')),
+                  ('uint8', lambda s: np.array(s, dtype='uint8')), ('uint16', lambda s: np.array(s, dtype='uint16')),
+                  ('float64', lambda s: np.array(s, dtype='float64')),
+                  ('Series', lambda s: pd.Series(s, index=[10 * (len(s) - i) for i in range(len(s))]))]
+        for seq in seqs:
+            exp = ref_flags(seq)
+            sub = {**{k: v for k, v in case.items() if k != 'stop_at'}, 'stop_at': list(seq)}
+            for name, mk in makers:
+                cl['C17.containers'] += 1
+                res['n'] += 1
+                try:
+                    got = significant_cloud(mk(seq))
+                    got_l = [bool(x) for x in got]
+                except Exception as e:
+                    got_l = 'EXC:' + repr(e)[:80]
+                if got_l != exp and len(res['violations']) < 20:
+                    res['violations'].append({'clause': 'C17.containers', 'site': 'icao.significant_cloud',
+                                              'detail': {'oktas': list(seq), 'container': name, 'got': repr(got_l), 'expected': exp}, 'sub': sub})
+            # the caller owns the list it gets back: editing it in place must not change what a later call returns
+            first = significant_cloud(list(seq))
+            if isinstance(first, list):
+                first.reverse(); first.append(True); first[:1] = [not first[0]]
+            cl['C17.result_owned_by_caller'] += 1
+            res['n'] += 2
+            for name, mk in (('list', list), ('tuple', tuple)):
+                again = significant_cloud(mk(seq))
+                if [bool(x) for x in again] != exp and len(res['violations']) < 20:
+                    res['violations'].append({'clause': 'C17.result_owned_by_caller', 'site': 'icao.significant_cloud',
+                                              'detail': {'oktas': list(seq), 'second_call_as': name, 'got': repr(again), 'expected': exp,
+                                                         'history': 'the list returned by an earlier call with the same values was edited in place'}, 'sub': sub})
+            res['digests'].add('c' + ''.join('1' if f else '0' for f in exp))
+    elif 'single' in case:                     # replay of one sequence (and its parent)
         seq = case['single']
         parent = visit(seq[:-1], None) if seq else None
         visit(seq, parent)
